@@ -121,6 +121,75 @@ def shard_scale(args):
     return acc.export()
 
 
+FIRST_SCENARIOS = ("suspend_first_then_full_wrap_of_another", "two_iterators_alternating", "suspend_first_then_same_value_again", "suspend_in_second_run_then_linesplit_and_wrap")
+
+
+def first_in_process(scenario):
+    """Runs in a process of its own: the very first wrap iterators this process ever creates are consumed interleaved."""
+    spec_a = (("aＥaＥaaＥbbbbＥcc", (("fg", 31),)), ("ddＥ\u0300dddd", (("bg", 44),)))
+    spec_b = (("zＥzzzzＥＥz", (("bold", True),)), ("yyyyyy", ()))
+    a, b = C.build(spec_a), C.build(spec_b)
+    plain_ = lambda lines: [[[c, [list(x) for x in at]] for c, at in C.cells(l)] for l in lines]
+    out = {}
+    if scenario == "suspend_first_then_full_wrap_of_another":
+        it1 = a.width_aware_splitlines(3)
+        first = [next(it1)]
+        out["b"] = plain_(list(b.width_aware_splitlines(4)))
+        out["a"] = plain_(first + list(it1))
+    elif scenario == "two_iterators_alternating":
+        it1, it2 = a.width_aware_splitlines(3), b.width_aware_splitlines(4)
+        la, lb = [], []
+        for _ in range(60):
+            x, y = next(it1, None), next(it2, None)
+            if x is None and y is None:
+                break
+            if x is not None:
+                la.append(x)
+            if y is not None:
+                lb.append(y)
+        out["a"], out["b"] = plain_(la), plain_(lb)
+    elif scenario == "suspend_first_then_same_value_again":
+        it1 = a.width_aware_splitlines(3)
+        first = [next(it1), next(it1)]
+        out["b"] = plain_(list(a.width_aware_splitlines(4)))
+        out["a"] = plain_(first + list(it1))
+        b = a
+    else:
+        from curtsies.formatstring import linesplit
+
+        it1 = a.width_aware_splitlines(3)
+        first = [next(it1) for _ in range(7)]
+        linesplit(b, 3)
+        out["b"] = plain_(list(b.width_aware_splitlines(4)))
+        out["a"] = plain_(first + list(it1))
+    # afterwards, one at a time
+    out["a_alone"] = plain_(list(a.width_aware_splitlines(3)))
+    out["b_alone"] = plain_(list(b.width_aware_splitlines(4)))
+    out["a_cells"] = [[c, [list(x) for x in at]] for c, at in C.cells(a)]
+    out["b_cells"] = [[c, [list(x) for x in at]] for c, at in C.cells(b)]
+    return out
+
+
+def check_first_in_process(acc):
+    from mc import fresh
+
+    def tup(lines):
+        return [[(c, tuple(tuple(x) for x in at)) for c, at in l] for l in lines]
+
+    for sc in FIRST_SCENARIOS:
+        res = fresh.in_fresh_process(first_in_process, sc)
+        case = {"scenario": sc, "process": "fresh: the first wraps the process ever makes"}
+        acc.case(True, key=("first", sc), sample=case)
+        acc.transitions += 1
+        for who, cols in (("a", 3), ("b", 4)):
+            got, alone = tup(res[who]), tup(res[who + "_alone"])
+            fc = [(c, tuple(tuple(x) for x in at)) for c, at in res[who + "_cells"]]
+            want = reference(fc, cols)
+            nz = [[cell for cell in line if W[cell[0]] != 0] for line in got]
+            if got != alone or nz != want:
+                acc.failure("C11:interleaved_wraps_interfere", dict(case, value=who, columns=cols), "interleaved %r, one at a time %r" % (["".join(c for c, _ in l) for l in got], ["".join(c for c, _ in l) for l in alone]))
+
+
 def shard(args):
     tier, seed, idx, nshards = args
     acc = Acc(seed=seed, sample_stride=19997)
@@ -248,6 +317,9 @@ def run(ctx):
         rep.merge(d)
     for d in ctx.pmap(shard_scale, [(ctx.tier, ctx.seed, i, 32) for i in range(32)]):
         rep.merge(d, "scale_sweep")
+    acc = Acc(seed=ctx.seed)
+    check_first_in_process(acc)
+    rep.merge(acc, "first_wraps_of_a_fresh_process_interleaved")
     rep.validated = rep.n
     maxlen, maxcol = (6, 7) if ctx.thorough else (5, 5)
     rep.rule = (
